@@ -48,6 +48,9 @@ JOBS = {
         {"cmd": "c08-h2", "race": False, "batches": {"quick": 4, "thorough": 12}, "timeout": {"quick": 600, "thorough": 2400},
          "fatal_is_violation": True, "mem_kb": 12000000},
     ],
+    "C10": [
+        {"cmd": "c10-engine", "race": True, "batches": {"quick": 2, "thorough": 6}, "timeout": {"quick": 600, "thorough": 2400}},
+    ],
     "C13": [
         {"cmd": "c13-lab", "race": True, "batches": {"quick": 2, "thorough": 4}, "timeout": {"quick": 300, "thorough": 1500}},
         {"cmd": "c13-e2e", "race": True, "batches": {"quick": 2, "thorough": 2}, "timeout": {"quick": 300, "thorough": 900}},
